@@ -20,6 +20,9 @@ type latticeSolid3 struct {
 	inside []bool // index x-1 + nx*(y-1 + ny*(z-1))
 	shift  float64
 	probe  func(c model3d.Coord3D)
+	// fn, if set, replaces the lattice membership inside the reported bounds (an analytic solid whose
+	// classification of the sample points is read off by the driver afterwards)
+	fn func(c model3d.Coord3D) bool
 }
 
 func (l *latticeSolid3) Min() model3d.Coord3D { return model3d.XYZ(1, 1, 1) }
@@ -38,6 +41,9 @@ func (l *latticeSolid3) Contains(c model3d.Coord3D) bool {
 	}
 	if c.X < 1 || c.Y < 1 || c.Z < 1 || c.X > float64(l.n[0]) || c.Y > float64(l.n[1]) || c.Z > float64(l.n[2]) {
 		return false // a solid never contains points outside its reported bounds
+	}
+	if l.fn != nil {
+		return l.fn(c)
 	}
 	return l.at(floorShift(c.X, l.shift), floorShift(c.Y, l.shift), floorShift(c.Z, l.shift))
 }
